@@ -418,7 +418,11 @@ func check(t interface {
 		if typ == "error" {
 			body = `<error type="cancel"><item-not-found xmlns="urn:ietf:params:xml:ns:xmpp-stanzas"/></error>`
 		}
-		sv.Feed(`<` + kind + ` xmlns="` + ns + `" type="` + typ + `" id="` + idb.String() + `" n="` + f.serial + `">` + body + `</` + kind + `>`)
+		// whoever the stanza says it is from makes no difference to the
+		// correlation (same kind, same id): no sender, the server in another
+		// spelling, a full address, our own account
+		from := []string{"", "", ` from="Example.NET"`, ` from="other@example.org/res"`, ` from="test@example.net/r"`, ` from="test@example.net"`}[serial%6]
+		sv.Feed(`<` + kind + ` xmlns="` + ns + `" type="` + typ + `"` + from + ` id="` + idb.String() + `" n="` + f.serial + `">` + body + `</` + kind + `>`)
 		return f
 	}
 	sentinels := 0
